@@ -24,7 +24,8 @@ REQUIRED = {
 ASSUMPTIONS = [
     "addOnException handlers that raise are excluded (documented to halt test processing)",
     "an empty MultipleExceptions() is excluded (no constituent, no outcome by construction)",
-    "programs are run on the synchronous RunTest (C14/C20 cover the Deferred runners)",
+    "most programs run on the plain RunTest; 30 % of the random ones on SynchronousDeferredRunTest / "
+    "AsynchronousDeferredRunTest (virtual-time reactor), without skip decorators for the latter",
 ]
 
 FLAVOURS = ["py26", "py27", "ext", "twisted", "real", "stream", "none"]
@@ -60,7 +61,7 @@ def x_prog(ctx, case):
     program = expand(case)
     flavour = case["flavour"]
     log, factory = make_result_factory(flavour)
-    runner = None
+    runner = programs.runner_factory_for(case.get("runner"))
     if flavour == "none":
         run = programs.execute(program, pass_none=True, default_result=factory,
                                runner_factory=runner)
@@ -159,4 +160,9 @@ def run(ctx):
         if rng.random() < 0.1:
             prog["rtw"] = True  # @run_test_with(RunTest) on the test method
         case = {"prog": prog, "flavour": rng.choice(FLAVOURS)}
+        r = rng.random()
+        if r < 0.15:
+            case["runner"] = "sync"
+        elif r < 0.3 and not prog.get("decor"):
+            case["runner"] = "async"   # skip decorators are a RunTest feature; the async runner runs setUp first
         ctx.execute("prog", case)
